@@ -335,7 +335,7 @@ def extract_tables():
 
 
 def cfg_line_from_tables(t):
-    toks = ['cfg', str(int(t['chunk'])), str(int(t['default_indent'])),
+    toks = ['cfg', str(int(t['chunk']) or 96), str(int(t['default_indent'])),
             enc_text(t['default_encoding']), str(len(t['boms']))]
     for name, hexes in t['boms']:
         toks += [enc_text(name), str(len(hexes))] + ['x' + h for h in hexes]
